@@ -116,7 +116,7 @@ def invariants(rep, prog):
     mem = prog.find_member(m, cls, '__post_init__') if cls is not None else None
     if not mem:
         rep.ob('R19.invariants', 'Network:post_init', None, 'Network.__post_init__ not found'); return
-    ev = Evaluator(prog)
+    ev = Evaluator(prog); ev.self_class = (m, cls)        # checks factored out into private methods are followed
     ev.call_fn(mem[1], mem[0], [A('self')], {}, {'__parent__': None}, 1)
     site = prog.site(mem[0], mem[1])
     env = {'self': A('self')}
@@ -156,7 +156,7 @@ def invariants(rep, prog):
     mem = prog.find_member(m, cls, '__post_init__') if cls is not None else None
     if not mem:
         rep.ob('R19.invariants', 'Circuit:post_init', None, 'Circuit.__post_init__ not found'); return
-    ev = Evaluator(prog)
+    ev = Evaluator(prog); ev.self_class = (m, cls)
     ev.call_fn(mem[1], mem[0], [A('self')], {}, {'__parent__': None}, 1)
     site = prog.site(mem[0], mem[1])
     empty = evs.truth(spec(evs, "len(self.components) == 0", env, m))
